@@ -30,6 +30,7 @@ import Gobptree.Proofs.ConcRank
 import Gobptree.Proofs.CSFinal
 import Gobptree.Proofs.CProgress
 import Gobptree.Proofs.CTerminate
+import Gobptree.Proofs.CClean
 
 namespace Gobptree.Conc
 open Gobptree
@@ -129,6 +130,34 @@ theorem C06_no_infinite_execution (P : Params K) (tree : Tree K V) (progs : List
     (c : Config K V) (hr : Reachable (Config.init P tree progs) c) :
     ¬ ∃ f : Nat → Nat, ∀ n, (c.run ((List.range n).map f)).2 = none :=
   no_infinite_execution c (reachable_cinv P tree progs ht ho hp hd hdel c hr)
+
+/-- **C06: the client-side proviso discharged statically.** `Closing progs`: every program leaves
+    no cursor open (each `NewScanner` is eventually followed by a `Close`; `endSt .N p = some .N`
+    in the discipline automaton).  Then no reachable configuration with an unfinished thread is
+    deadlocked — `FinishedClean` is a theorem (`reachable_finishedClean`), not a hypothesis. -/
+theorem C06_no_deadlock_closing (P : Params K) (tree : Tree K V) (progs : List (List (COp K V)))
+    (ht : TreeOk none tree) (ho : tree.order = P.order) (hp : PadOk P) (hcl : Closing progs)
+    (hdel : 4 ≤ tree.order ∨ NoDelete progs)
+    (c : Config K V) (hr : Reachable (Config.init P tree progs) c) (hu : c.unfinished = true) :
+    c.enabledSet ≠ [] :=
+  no_deadlock_closing P tree progs ht ho hp hcl hdel c hr hu
+
+/-- **C06: every operation returns, unconditionally.** For programs that close their cursors, EVERY
+    maximal execution — any schedule, extended until nothing is enabled, which happens within
+    `termBound c` steps — ends with every operation of every thread returned, and with no mutex held
+    by anybody. No fairness assumption, no side condition on the run. -/
+theorem C06_all_operations_return_closing (P : Params K) (tree : Tree K V) (progs : List (List (COp K V)))
+    (ht : TreeOk none tree) (ho : tree.order = P.order) (hp : PadOk P)
+    (hcl : Closing progs) (hdel : 4 ≤ tree.order ∨ NoDelete progs)
+    (c : Config K V) (hr : Reachable (Config.init P tree progs) c)
+    (ts : List Nat) (c' : Config K V) (hrun : c.run ts = (c', none)) (hstuck : c'.enabledSet = []) :
+    c'.unfinished = false ∧ c'.owner = [] ∧ ∀ th ∈ c'.threads, th.held = [] :=
+  ⟨all_operations_return_closing P tree progs ht ho hp hcl hdel c hr ts c' hrun hstuck,
+   nothing_held_at_end P tree progs ht ho hp hcl hdel c hr ts c' hrun hstuck⟩
+
+/-- `Closing` is satisfiable and strictly stronger than `Disciplined` -/
+example : Closing [[COp.ins 1 1, COp.ns 0, COp.scan, COp.pair, COp.close, COp.del 1], [COp.get (K := Nat) (V := Nat) 1]] := by
+  intro p hp; simp at hp; rcases hp with rfl | rfl <;> rfl
 
 /-- an enabled thread can step: a maximal execution exists -/
 theorem C06_enabled_can_step (c : Config K V) (t : Nat) (h : t ∈ c.enabledSet) : ∃ c', c.step t = some c' :=
@@ -265,3 +294,5 @@ end Gobptree.Conc
 #print axioms Gobptree.Conc.C06_all_operations_return
 #print axioms Gobptree.Conc.C06_no_infinite_execution
 #print axioms Gobptree.Conc.C06_enabled_can_step
+#print axioms Gobptree.Conc.C06_no_deadlock_closing
+#print axioms Gobptree.Conc.C06_all_operations_return_closing
